@@ -192,6 +192,10 @@ def gen_selection(rng, src):
     for e, (a, b) in enumerate(src.edges):
         d0, d1 = src.node_z[a] - zc, src.node_z[b] - zc
         definite = abs(d0) > 1e-9 and abs(d1) > 1e-9
+        if lat == 0.0 and (src.node_z[a] == 0.0 or src.node_z[b] == 0.0):
+            # a node exactly on the equator (z = sin(0) = 0 in every rounding) is on the parallel, hence on
+            # neither side: this edge does not cross
+            continue
         if definite:
             if d0 * d1 < 0:
                 smin |= src.edge_faces[e]
